@@ -21,7 +21,8 @@ SetToSeq(S) == LET RECURSIVE F(_) F(T) == IF T = {} THEN <<>> ELSE LET x == CHOO
                IN F(S)
 \* aggregates as JSON-friendly records: bag as a sequence of counts (Vals = 1..n), ids as a sequence
 J(a) == [key |-> a.key, sum |-> a.sum, bag |-> [i \in 1..Cardinality(Vals) |-> a.bag[i]],
-         hbag |-> [i \in 1..Cardinality(Vals) |-> a.hbag[i]], last |-> a.last,
+         hbag |-> [i \in 1..Cardinality(Vals) |-> a.hbag[i]],
+         pbag |-> [i \in 1..Cardinality(Vals) |-> a.pbag[i]], last |-> a.last,
          ids |-> SetToSeq(a.ids)]
 JBatch(f) == SetToSeq({J(a) : a \in out'[f][Len(out'[f])]})
 
